@@ -14,6 +14,17 @@ OUTPUT_SIDE = {'output_vaxes', 'output_paxes', 'output_paxes_set', 'output', 'ou
 
 
 def run(prog: Program, rep: Report, tier: str) -> None:
+    from ..absint import domain as _dom
+    if tier == 'thorough':
+        _dom.refine([-2.0, -0.5, 0.5, 2.0])
+        rep.notes.append('thorough tier: abstract partition refined with cut points -2, -0.5, 0.5, 2 (16 numeric classes)')
+    try:
+        _run(prog, rep, tier)
+    finally:
+        _dom.refine([])
+
+
+def _run(prog: Program, rep: Report, tier: str) -> None:
     rep.rule('C07-D1', 'the in-place multiply callback handed to torch_semiring_einsum by each *.einsum is, on every pair of carrier classes, the same function as that semiring\'s mul (0 x inf = 0 convention); the additive callbacks belong to the family of add')
     rep.rule('C07-D2', 'sparsity relative to semiring zero: in einsum and log_viterbi_einsum_forward the operand list is rebound to [t.default_to(<from_int(0)>.item()) ...] before any axis is unified, and every value tensor they construct takes its default from from_int(0)')
     rep.rule('C07-D3', 'mv / mm forward the semiring and use index strings that denote matrix-vector / matrix-matrix contraction')
